@@ -255,12 +255,14 @@ def rule_d(ctx):
                 ctx.check(byval, rid, "publish-by-value@%s" % keyname(i.name), "the snapshot is moved into the publishing call (cannot be touched afterwards)",
                           t["sp"], a)
     writes = []
-    for i in F.inst:
-        if i.body is None or not i.local or i.crate != "signal_hook_registry":
-            continue
-        for s in sites(F, i):
-            if on_field(s, R.ptr) and s.op not in ("load",):
-                writes.append((i, s))
+    seen_w = set()
+    for T in (DATA_T, FB_T):
+        V = L.V[T]
+        for r in V.roots:
+            for s in sites(F, V.n[r.id]):        # normal forms of the lock's entry points: the pointer may sit behind a private newtype / Deref
+                if on_field(s, R.ptr) and s.op not in ("load",) and (s.sp, s.op) not in seen_w:
+                    seen_w.add((s.sp, s.op))
+                    writes.append((r, s))
     ctx.check(writes and all(s.op == "swap" for _, s in writes), rid, "pointer-writes", "the snapshot pointer is written only by swap (%d site(s))" % len(writes), None,
               ["%s in %s" % (s.op, i.name) for i, s in writes])
     dm = [i.name for i in F.inst if re.match(r"^<signal_hook_registry::half_lock::(Write|Read)Guard<.*> as core::ops::deref::DerefMut>::deref_mut$", i.name)]
